@@ -177,7 +177,7 @@ def check_C42(ctx):
 CONSTANTS
   Items <- MCItems
   MaxN = %d
-INVARIANTS OutputSorted PermutationInvariant AcceptIffCanonical WeakIsStrict PrefixInvariant EmitRow
+INVARIANTS OutputSorted PermutationInvariant AcceptIffCanonical WeakIsStrict PrefixInvariant OtherSorted EmitRow
 """ % (3 if ctx.quick else 4))
     ro = ctx.tlc(OFILES + [cfg], "MC_CcfOrder", "MC_CcfOrder_run.cfg", workers=min(8, ctx.cores), timeout=1500, tag="ccforder")
     orows = ro.json_lines()
@@ -237,7 +237,7 @@ INVARIANTS OutputSorted PermutationInvariant AcceptIffCanonical WeakIsStrict Pre
         "exhaustive": True,
         "order_rows_by_category": dict(cats),
         "permutation_pairs_compared": osumm["permutation_pairs_compared"], "strict_decodes": osumm["strict_decodes"],
-        "reordered_dictionaries": osumm["reordered_dicts"], "key_encodings_predicted": osumm["key_encodings_predicted"],
+        "reordered_dictionaries": osumm["reordered_dicts"], "messages_with_same_named_types": osumm.get("same_name_messages", 0), "key_encodings_predicted": osumm["key_encodings_predicted"],
         "recorded_orders_judged": len(log), "random_dictionaries": osumm["random_dicts"],
         "ccf_roundtrips": summ["ccf_roundtrips"], "deterministic_strict_roundtrips": summ["det_strict"],
         "not_ccf_encodable_by_design": summ["ccf_refused_attachment"],
